@@ -512,4 +512,48 @@ theorem penSpec2_psd (m1 m2 : ℕ) (la lb : ℚ) (P1 P2 : ℕ → ℕ → ℚ) (
   exact add_nonneg (mul_nonneg hl1 (Finset.sum_nonneg fun k2 _ => h1 _))
     (mul_nonneg hl2 (Finset.sum_nonneg fun k1 _ => h2 _))
 
+theorem eq_iff_divmod (m a b : ℕ) (hm : 0 < m) : a = b ↔ (a / m = b / m ∧ a % m = b % m) := by
+  constructor
+  · rintro rfl; exact ⟨rfl, rfl⟩
+  · rintro ⟨h1, h2⟩
+    rw [← Nat.div_add_mod a m, ← Nat.div_add_mod b m, h1, h2]
+
+/-- The 3-D tensor penalty is the 2-D construction applied to `P₁` and the 2-D penalty of the
+last two dimensions. -/
+theorem penSpec3_eq (m2 m3 : ℕ) (hm3 : 0 < m3) (la lb lc : ℚ) (P1 P2 P3 : ℕ → ℕ → ℚ) (K L : ℕ) :
+    penSpec3 m2 m3 la lb lc P1 P2 P3 K L
+      = penSpec2 (m2 * m3) la 1 P1 (penSpec2 m3 lb lc P2 P3) K L := by
+  unfold penSpec3 penSpec2
+  simp only []
+  have d1 : K % (m2 * m3) / m3 = K / m3 % m2 := by rw [Nat.mul_comm m2 m3]; exact Nat.mod_mul_right_div_self K m3 m2
+  have d2 : L % (m2 * m3) / m3 = L / m3 % m2 := by rw [Nat.mul_comm m2 m3]; exact Nat.mod_mul_right_div_self L m3 m2
+  have r1 : K % (m2 * m3) % m3 = K % m3 := by rw [Nat.mul_comm m2 m3]; exact Nat.mod_mul_right_mod K m3 m2
+  have r2 : L % (m2 * m3) % m3 = L % m3 := by rw [Nat.mul_comm m2 m3]; exact Nat.mod_mul_right_mod L m3 m2
+  rw [d1, d2, r1, r2]
+  have hδ : (if K % (m2 * m3) = L % (m2 * m3) then (1 : ℚ) else 0)
+      = (if K / m3 % m2 = L / m3 % m2 then 1 else 0) * (if K % m3 = L % m3 then 1 else 0) := by
+    have := eq_iff_divmod m3 (K % (m2 * m3)) (L % (m2 * m3)) hm3
+    rw [d1, d2, r1, r2] at this
+    by_cases h : K % (m2 * m3) = L % (m2 * m3)
+    · rw [if_pos h, if_pos (this.mp h).1, if_pos (this.mp h).2]; ring
+    · rw [if_neg h]
+      by_cases ha : K / m3 % m2 = L / m3 % m2
+      · by_cases hb : K % m3 = L % m3
+        · exact absurd (this.mpr ⟨ha, hb⟩) h
+        · rw [if_neg hb]; ring
+      · rw [if_neg ha]; ring
+  rw [hδ]
+  ring
+
+theorem penSpec3_psd (m1 m2 m3 : ℕ) (hm3 : 0 < m3) (la lb lc : ℚ) (P1 P2 P3 : ℕ → ℕ → ℚ)
+    (ha : 0 ≤ la) (hb : 0 ≤ lb) (hc : 0 ≤ lc)
+    (h1 : ∀ v, 0 ≤ quadForm m1 P1 v) (h2 : ∀ v, 0 ≤ quadForm m2 P2 v) (h3 : ∀ v, 0 ≤ quadForm m3 P3 v)
+    (v : ℕ → ℚ) :
+    0 ≤ quadForm (m1 * m2 * m3) (penSpec3 m2 m3 la lb lc P1 P2 P3) v := by
+  have : penSpec3 m2 m3 la lb lc P1 P2 P3 = penSpec2 (m2 * m3) la 1 P1 (penSpec2 m3 lb lc P2 P3) := by
+    funext K L; exact penSpec3_eq m2 m3 hm3 la lb lc P1 P2 P3 K L
+  rw [this, Nat.mul_assoc]
+  exact penSpec2_psd m1 (m2 * m3) la 1 P1 _ ha (by norm_num) h1
+    (fun u => penSpec2_psd m2 m3 lb lc P2 P3 hb hc h2 h3 u) v
+
 end FDA.GLAM
